@@ -29,9 +29,9 @@ func init() {
 		Assumptions: []string{"a record counts as durable once the WriteLog call that carries it has returned (the property's storage model)", "commit markers are appended after the call returned, so the commit rule can miss a tiny window under concurrency but cannot raise a false alarm"},
 		NumCases: func(env *core.Env) int {
 			if env.Thorough() {
-				return 400
+				return 640
 			}
-			return 40
+			return 64
 		},
 		RunCase:  c08Run,
 		Children: func(env *core.Env) int { return 8 },
@@ -75,6 +75,19 @@ func c08Run(env *core.Env, idx int) *core.CaseResult {
 			p.Steps *= 2
 			h, fatal = crashlab.RunConcurrent(r, fmt.Sprintf("%s/c08_%d", env.TmpDir, idx), p)
 		} else {
+			if idx%8 == 1 || idx%8 == 2 {
+				// two fully indexed tables in a 32-frame pool with hash joins between the transactions: page ids of the joins' temp pages wait
+				// for reuse while later transactions allocate pages (NewPage's reuse path evicting dirty pages)
+				p.Tables = []crashlab.TableDef{{Name: "h0", Via: "sql", Idx: []string{"skiplist", "skiplist", "skiplist"}}, {Name: "h1", Via: "sql", Idx: []string{"skiplist", "skiplist", "skiplist"}}}
+				p.MemKB = 128
+				p.Joins = true
+				p.BulkUpdates = true // one statement dirties every heap page and splits / empties index nodes (NewPage) before any flush
+				p.MaxPayload = 800
+				p.RowSizes = []int{300, 800}
+				p.Steps = 200 + r.Intn(100)
+				p.MaxOpen = 1
+				res.Add("histories_with_joins_between_transactions", 1)
+			}
 			if idx%8 == 6 {
 				bigTxnParams(r, &p) // single transactions larger than the log buffer (the buffer-full path of AppendLogRecord)
 				res.Add("histories_with_a_transaction_larger_than_the_log_buffer", 1)
@@ -86,6 +99,11 @@ func c08Run(env *core.Env, idx int) *core.CaseResult {
 			return res
 		}
 		events = h.Events
+		for k, v := range h.Stats {
+			if k == "join_statements" || k == "insert_bursts_next_to_open_transactions" || k == "checkpoints" {
+				res.Add("history_"+k, v)
+			}
+		}
 		for _, t := range h.Txns {
 			if t.CommitRet >= 0 && len(t.Ops) > 0 {
 				tok := ""
